@@ -192,20 +192,34 @@ def main(argv=None):
         traceback.print_exc()
         print(f"CHECKER-ERROR property={prop} loading contracts failed")
         return 3
-    idxs = [i for i, c in enumerate(reg.order) if prop in contract_props(c) and c.verify
-            and (a.only is None or a.only in c.target)]
+    sel = [i for i, c in enumerate(reg.order) if prop in contract_props(c) and c.verify
+           and (a.only is None or a.only in c.target)]
+    idxs = [i for i in sel if reg.order[i].deductive]
+    bounded_only = [i for i in sel if not reg.order[i].deductive]
     assumed = [c for c in reg.order if prop in contract_props(c) and not c.verify]
-    if not idxs:
+    if not sel:
         print(f"CHECKER-ERROR property={prop} no contracts registered (zero obligations)")
         return 3
-    jobs = max(1, min(a.jobs, len(idxs)))
+    jobs = max(1, min(a.jobs, max(1, len(idxs))))
     inner = max(1, a.jobs // jobs)
     from .par import pmap
-    recs = pmap(_verify_worker, [(i, prop, timeout_ms, inner) for i in idxs], jobs)
+    recs = pmap(_verify_worker, [(i, prop, timeout_ms, inner) for i in idxs], jobs) if idxs else []
     # bounded stand-ins: the executable contracts run natively on their own small-scope case generators
     from .report import finish, native_in_subprocess
     bounded = []
-    for i in idxs:
+
+    def _bounded_job(i):
+        c = reg.order[i]
+        res, err = native_in_subprocess("run_cases", c.target, c.spec_mod, c.name, a.tier, seed, timeout=1500)
+        return (i, res, err)
+    for i, res, err in pmap(_bounded_job, sel, min(8, max(1, len(sel)))):
+        c = reg.order[i]
+        if res is None:
+            bounded.append({"target": c.target, "contract": c.name, "spec_mod": c.spec_mod, "error": err[-400:]})
+        elif res.get("cases"):
+            res.update({"target": c.target, "contract": c.name, "spec_mod": c.spec_mod})
+            bounded.append(res)
+    for i in []:
         c = reg.order[i]
         res, err = native_in_subprocess("run_cases", c.target, c.spec_mod, c.name, a.tier, seed, timeout=900)
         if res is None:
